@@ -129,3 +129,33 @@ Lemma monitor_rejects_witnesses :
    holds w_cfg (Authenticated w_sess) client (h_get k_xfu out) (h_get k_xfe out) (h_get k_xfg out) (h_get k_xfat out)
          (h_get k_cookie out) [] = false).
 Proof. repeat split; vm_compute; reflexivity. Qed.
+
+(* when a refresh / revalidation is due: on the model's own output the mode the monitor judges by
+   (built from the re-saved session) is the mode the model computed with *)
+Lemma observed_mode_of_model allowed d m :
+  observed_mode (model_saved allowed d m) m = model_mode allowed d m.
+Proof. destruct m as [s|]; [|reflexivity]. destruct d; reflexivity. Qed.
+
+Lemma monitor_accepts_model_due scrub cfg m allowed d client :
+  (m = SkipAuth \/ operator_clean cfg k_connection) ->
+  (forall k, In k identity_keys -> client_conn_names client k = false) ->
+  (scrub = true \/ forall k, In k identity_keys -> client_sent client k = false) ->
+  let out := upstream scrub cfg (model_mode allowed d m) client in
+  holds cfg (observed_mode (model_saved allowed d m) m) client
+        (h_get k_xfu out) (h_get k_xfe out) (h_get k_xfg out) (h_get k_xfat out) (h_get k_cookie out)
+        (map name_value (read_cookies (h_get k_cookie out))) = true.
+Proof.
+  intros G1 G2 G3. rewrite observed_mode_of_model.
+  apply (monitor_accepts_model scrub cfg (model_mode allowed d m) client); try assumption.
+  destruct G1 as [->|G1]; [left; reflexivity | right; exact G1].
+Qed.
+
+(* the monitor sees a proxy that re-saves the refreshed session but asserts the presented one *)
+Lemma monitor_rejects_stale_assertion :
+  let allowed := [[101]; [111]; [116]] in
+  let s := {| s_user := [98]; s_email := [98;64;99]; s_groups := [[116]; [101]]; s_token := [49] |} in
+  let d := RefreshDue [50] [[116]; [111]; [120]] in
+  let stale := upstream true w_cfg (Authenticated s) [] in
+  holds w_cfg (observed_mode (resaved_session allowed s d) (Authenticated s)) []
+        (h_get k_xfu stale) (h_get k_xfe stale) (h_get k_xfg stale) (h_get k_xfat stale) (h_get k_cookie stale) [] = false.
+Proof. vm_compute. reflexivity. Qed.
